@@ -47,6 +47,29 @@ def main():
             corner = op['corner']
             cells = sorted(act[l], key=lambda c: (sum((c[d] if corner[d] == 0 else -c[d]) for d in range(dim)), c))
             return [[l, [list(c) for c in cells[:op.get('n', 1)]]]]
+        if kind == 'inner-edge':
+            # cells of the finest markable level >= 1 that lie at the boundary of Omega_l in the INTERIOR of the
+            # domain (a neighbouring cell of the same level is neither active nor deactivated): refining them makes
+            # the boundary of Omega_{l+1} touch that of Omega_l (non-graded hierarchy)
+            for l in sorted((x for x in lvls if x >= 1), reverse=True):
+                omega = set(hs.hmesh.active[l]) | set(hs.hmesh.deactivated[l])
+                nsp = hs.mesh(l).numspans
+                edge = []
+                for c in act[l]:
+                    for d in range(dim):
+                        for s in (-1, 1):
+                            nbc = tuple(c[e] + (s if e == d else 0) for e in range(dim))
+                            if 0 <= nbc[d] < nsp[d] and nbc not in omega:
+                                edge.append(c)
+                edge = sorted(set(edge))
+                if edge:
+                    c0 = rng.choice(edge)
+                    cells = [c for c in edge if max(abs(a - b) for a, b in zip(c, c0)) <= op.get('n', 1)]
+                    return [[l, [list(c) for c in cells]]]
+            l = min(lvls)        # nothing refined yet: refine an interior block that does not reach the whole boundary
+            nsp = hs.mesh(l).numspans
+            cells = [c for c in act[l] if all(c[d] >= nsp[d] // 2 for d in range(dim))]
+            return [[l, [list(c) for c in (cells or act[l][:1])]]]
         if kind == 'isolated':
             l = rng.choice(lvls)
             return [[l, [list(rng.choice(act[l]))]]]
@@ -117,7 +140,15 @@ def main():
             import random as _random
             rng = _random.Random(case.get('seed', 0))
             explicit = []
-            for op in case['ops']:
+            between = []
+            warm = None
+            if case.get('assemble_between'):
+                # the SAME HSpace object is assembled over after every intermediate refinement (this populates the
+                # index caches of the object); the final results must be those of the final space
+                wf = case['assemble_between']
+                wargs = {'geo': make_geo(wf['geo'], dim)}
+                warm = (vform.parse_vf(wf['expr'], kvs, args=wargs), wargs)
+            for iop, op in enumerate(case['ops']):
                 if 'pick' in op:
                     marks = pick_marks(hs, op, rng, dim)
                     if not marks:
@@ -125,7 +156,15 @@ def main():
                     op = {'kind': 'refine', 'marks': marks, 'container': op.get('container', 'set'), 'trunc': bool(op.get('trunc'))}
                 explicit.append(op)
                 hs.refine({lv: container(op['container'], cells) for lv, cells in op['marks']}, truncate=bool(op.get('trunc')))
+                if warm is not None and iop < len(case['ops']) - 1:
+                    try:
+                        Aw = assemble.assemble(warm[0], hs, **warm[1])
+                        between.append([int(s) for s in Aw.shape])
+                        hs.dirichlet_dofs()
+                    except Exception as e:      # noqa
+                        between.append(err(e))
             res['ops'] = explicit
+            res['between'] = between
             Lv = hs.numlevels
             res['L'] = Lv
             res['numdofs_lv'] = [[int(n) for n in hs.mesh(k).numdofs] for k in range(Lv)]
